@@ -158,3 +158,32 @@ func FuncFullName(f *types.Func) string {
 func (w *World) SSAFunc(obj *types.Func) *ssa.Function {
 	return w.Prog.FuncValue(obj)
 }
+
+// EvalConstMap evaluates a map literal whose keys are constant strings and whose values are constants
+// (`map[string]policy{authtypes.FeeCollectorName: policyBlocked, ...}`): key -> exact value of the constant.
+func EvalConstMap(pk *packages.Package, e ast.Expr) (map[string]string, error) {
+	cl, ok := e.(*ast.CompositeLit)
+	if !ok {
+		return nil, fmt.Errorf("not a composite literal")
+	}
+	out := map[string]string{}
+	for _, el := range cl.Elts {
+		kv, ok := el.(*ast.KeyValueExpr)
+		if !ok {
+			return nil, fmt.Errorf("element is not key:value")
+		}
+		k, ok := ConstString(pk, kv.Key)
+		if !ok {
+			return nil, fmt.Errorf("non-constant key at %v", pk.Fset.Position(kv.Key.Pos()))
+		}
+		tv, ok := pk.TypesInfo.Types[kv.Value]
+		if !ok || tv.Value == nil {
+			return nil, fmt.Errorf("non-constant value for %q", k)
+		}
+		if _, dup := out[k]; dup {
+			return nil, fmt.Errorf("duplicate key %q", k)
+		}
+		out[k] = tv.Value.ExactString()
+	}
+	return out, nil
+}
